@@ -146,6 +146,9 @@ HelloCases ==
     IN  { Case("good", udp, 0, 0, good) }
         \cup { Case("unterminated-string", udp, 0, 0, Wrap(udp, tscf, GpcMsg(<<72, 105, 33, 33>>, 3), 12)) }
         \cup { Case("unterminated-full-buffer", udp, 0, 0, Wrap(udp, tscf, noterm, Len(noterm))) }
+        \* the longest text the listener accepts (25 quadlets), one byte value throughout: high bytes, control and escape characters,
+        \* DEL, format-string characters - whatever the text is shown with must cope with each class at full length
+        \cup { LET m == GpcMsg(Fill(92, b), 25) IN Case("text-full-length-byte-" \o ToString(b), udp, 0, 0, Wrap(udp, tscf, m, Len(m))) : b \in {1, 10, 27, 37, 92, 127, 128, 200, 255} }
         \cup { Case("acf-length", udp, 0, 0, Wrap(udp, tscf, GpcMsg(text, q), 12)) : q \in {0, 1, 2, 25, 26, 511} }
         \cup { Case("acf-type", udp, 0, 0, Wrap(udp, tscf, Set2(msg, 0, "Gpc", "acf_msg_type", ty), 12)) : ty \in {0, 1, 66} }
         \cup { Case("truncated", udp, 0, 0, Prefix(good, k)) : k \in Cuts(good, {hl, hl + 8}) }
